@@ -188,3 +188,41 @@ func LoopHeaderOf(b *ssa.BasicBlock) *ssa.BasicBlock {
 	}
 	return best
 }
+
+// LoopBlocks returns the natural loop of header h: h plus every block that
+// reaches the source of a back edge to h without passing through h.
+func LoopBlocks(h *ssa.BasicBlock) map[*ssa.BasicBlock]bool {
+	in := map[*ssa.BasicBlock]bool{h: true}
+	var stack []*ssa.BasicBlock
+	for e := range BackEdgesTo(h) {
+		if !in[e.From] {
+			in[e.From] = true
+			stack = append(stack, e.From)
+		}
+	}
+	for len(stack) > 0 {
+		b := stack[len(stack)-1]
+		stack = stack[:len(stack)-1]
+		for _, p := range b.Preds {
+			if !in[p] {
+				in[p] = true
+				stack = append(stack, p)
+			}
+		}
+	}
+	return in
+}
+
+// LoopExits returns the edges leaving the natural loop of h.
+func LoopExits(h *ssa.BasicBlock) []Edge {
+	in := LoopBlocks(h)
+	var out []Edge
+	for b := range in {
+		for i, s := range b.Succs {
+			if !in[s] {
+				out = append(out, Edge{b, i})
+			}
+		}
+	}
+	return out
+}
